@@ -1374,23 +1374,37 @@ class UnitDatabase(Singleton):
         # 1st thing is putting the same unit for a given quantity type (both sides)
         for c in (category_to_unit_and_exp1, category_to_unit_and_exp2):
             for category, unit_exp in list(c.items()):
-                unit, _exp = unit_exp
+                unit, exp = unit_exp
                 quantity_type = self.GetCategoryQuantityType(category)
                 used_unit_for_quantity_type = quantity_types_found_to_used_unit.get(quantity_type)
                 if used_unit_for_quantity_type is None:
                     quantity_types_found_to_used_unit[quantity_type] = unit
                 else:
-                    # don't worry about the exponent at this time, just update the unit and the related value.
+                    # update the unit and the related value (honouring the exponent).
                     if c is category_to_unit_and_exp1:
-                        value1 = self.Convert(
-                            quantity_type, unit, used_unit_for_quantity_type, value1
+                        value1 = self._ConvertMatchingExp(
+                            quantity_type, unit, used_unit_for_quantity_type, exp, value1
                         )
                     else:
-                        value2 = self.Convert(
-                            quantity_type, unit, used_unit_for_quantity_type, value2
+                        value2 = self._ConvertMatchingExp(
+                            quantity_type, unit, used_unit_for_quantity_type, exp, value2
                         )
                     unit_exp[0] = used_unit_for_quantity_type
         return category_to_unit_and_exp1, category_to_unit_and_exp2, value1, value2
+
+    def _ConvertMatchingExp(
+        self, quantity_type: str, from_unit: str, to_unit: str, exp: int, value: Any
+    ) -> Any:
+        """
+        Converts a value whose unit appears with the given exponent: with exponent 1 this is the
+        plain conversion, otherwise the value is scaled by the unit ratio raised to the exponent.
+        """
+        if exp == 1 or from_unit == to_unit:
+            return self.Convert(quantity_type, from_unit, to_unit, value)
+        ratio = self.Convert(quantity_type, from_unit, to_unit, 1.0) - self.Convert(
+            quantity_type, from_unit, to_unit, 0.0
+        )
+        return value * ratio**exp
 
     def _DoOperationResultingInNewQuantity(
         self,
